@@ -3,10 +3,12 @@
    unification is the identity when no two records share kind and identifier, and the
    grouping half of the merge specification: one record per (kind, identifier) group and
    every anonymous record, in first-occurrence order; and the attribute half: a merged
-   record holds exactly the images of its group's attribute values.  "Conflict iff raise"
+   record holds exactly the images of its group's attribute values; and idempotence: the
+   records unified() returns are a fixed point of unification, and in the document it returns
+   no container has anything left to merge.  "Conflict iff raise"
    is established by the correspondence run and the independent merge oracle (partial). *)
 From Coq Require Import String List Arith ZArith.
-From Prov Require Import Str Sexp Tables Nsm Values Record World Interp InterpProofs NsmProofs RecordProofs UnifyProofs IdemProofs ReaddProofs GoodProofs.
+From Prov Require Import Str Sexp Tables Nsm Values Record World Interp InterpProofs NsmProofs RecordProofs UnifyProofs UnifyIdemProofs UnifyDocProofs Derive IdemProofs ReaddProofs GoodProofs ConflictProofs.
 Import ListNotations.
 Open Scope string_scope.
 
@@ -20,35 +22,10 @@ Print Assumptions C08_source_unchanged.
 
 (* groups of one: records that share neither kind nor identifier with another record
    are emitted as they are, in order *)
-Lemma unify_walk_singletons : forall fuel c m all todo seen,
-  length todo < fuel ->
-  (forall r, In r todo -> rid r <> None -> filter (same_group r) all = [r]) ->
-  (forall r s, In r todo -> In s seen -> same_group r s = false) ->
-  unify_walk fuel c m all todo seen = Done m todo.
-Proof.
-  induction fuel as [|f IH]; intros c m all todo seen L S1 S2; [inversion L|].
-  destruct todo as [|r rest]; [reflexivity|]. cbn [unify_walk].
-  assert (REST : unify_walk f c m all rest seen = Done m rest).
-  { apply IH; [cbn in L; apply Nat.succ_lt_mono; exact L | |].
-    - intros x Hx. apply S1. right; exact Hx.
-    - intros x s Hx Hs. apply S2; [right; exact Hx | exact Hs]. }
-  destruct (rid r) eqn:ER.
-  - assert (NS : existsb (same_group r) seen = false).
-    { destruct (existsb (same_group r) seen) eqn:E; [|reflexivity].
-      apply existsb_exists in E. destruct E as [s [Hs Es]].
-      rewrite (S2 r s (or_introl eq_refl) Hs) in Es. discriminate. }
-    rewrite NS. rewrite (S1 r (or_introl eq_refl)) by (rewrite ER; discriminate).
-    rewrite REST. reflexivity.
-  - rewrite REST. reflexivity.
-Qed.
-
 Theorem C08_no_reuse_identity : forall ft b,
   (forall r, In r (brecs b) -> rid r <> None -> filter (same_group r) (brecs b) = [r]) ->
   unified_records ft b = OK (brecs b).
-Proof.
-  intros ft b S. unfold unified_records.
-  rewrite unify_walk_singletons; [reflexivity | auto | exact S | intros r s _ []].
-Qed.
+Proof. exact no_reuse_identity. Qed.
 Print Assumptions C08_no_reuse_identity.
 
 (* grouping: the result holds, in first-occurrence order, exactly one record per (kind, identifier)
@@ -86,8 +63,33 @@ Theorem C08_attributes_reachable : forall ft ops c b u,
 Proof. exact reachable_unified_attributes. Qed.
 Print Assumptions C08_attributes_reachable.
 
-(* not proved: a conflict on a formal attribute raises ProvException iff two members disagree on it
-   (computed below on an example; decided per run by the merge oracle) *)
+(* ---- idempotence.  Records: what unified_records returns is returned unchanged — same records, same
+   order — by unifying any container that holds it.  Document: in the document unified() returns, the
+   main container and every bundle are fixed points. *)
+Theorem C08_idempotent_records : forall ft b u, unified_records ft b = OK u ->
+  forall ft' i m idx, unified_records ft' (mkB i m u idx) = OK u.
+Proof. exact unified_idempotent. Qed.
+Print Assumptions C08_idempotent_records.
+
+Theorem C08_idempotent_document : forall ft dd nd, doc_unified ft dd = OK nd ->
+  forall ft', unified_records ft' (dmain nd) = OK (brecs (dmain nd)) /\
+              forall k b, In (k, b) (dbundles nd) -> unified_records ft' b = OK (brecs b).
+Proof. exact doc_unified_idempotent. Qed.
+Print Assumptions C08_idempotent_document.
+
+(* ---- "raises ProvException when two records with the same identifier disagree on a single-valued formal
+   attribute": the only-if half, for every reachable container.  When unifying raises, the exception is
+   ProvException and two records q1 q2 of one (kind, identifier) group hold, under the same formal
+   attribute, values that are not equal (conflict q1 q2; q1 = q2 when one record alone holds two). *)
+Theorem C08_raises_only_on_conflict : forall ft ops c b e,
+  let w := wrun ft ops in
+  get_cont w c = Some b -> unified_records (wft w) b = Raise e ->
+  e = EProv /\ group_conflict (brecs b).
+Proof. exact reachable_unified_raises. Qed.
+Print Assumptions C08_raises_only_on_conflict.
+
+(* not proved: the if half (every conflict raises) — false as stated for memberships (finding C08-F1);
+   computed below on an example and decided per run by the merge oracle *)
 
 (* merging computes: two entities and an agent on one identifier, an anonymous
    relation; the agent survives (repaired grouping), attribute sets are united *)
